@@ -512,7 +512,7 @@ func run(c *hx.Ctx) error {
 	if os.Getenv("VERIF_C04_ONLY") == "forms" {
 		builds, origins = nil, nil
 	}
-	formCases := lexh.Forms(r, c.Quick(), c.N(7000, 150000))
+	formCases := lexh.Forms(r, c.Quick(), c.N(5000, 150000))
 	formsAt := len(builds)
 	for _, fc := range formCases {
 		builds = append(builds, fc.BuildCase)
